@@ -766,32 +766,43 @@ bool XmlElement::GetAttr(const string& what, string& target) const
 const string& XmlElement::InplaceXlate (string& what)
 {
 	RegMatch match;
-	while (rCX_.SearchString(match, what, 2) == 2)
+	// one left to right pass: whatever a reference produces is never scanned again (&amp;lt; is the text "&lt;")
+	for (string::size_type offset(0); offset < what.size();)
 	{
-		string whatv;
-		rCX_.SubExpr(match, what, whatv, 0, 1);
-		const auto sitr(stringtochar_.find(whatv));
-		rCX_.Replace(match, what, sitr == stringtochar_.cend() ? '?' : sitr->second); // not found character entity replaces string with '?'
-	}
-
-	while (rCE_.SearchString(match, what, 2) == 2)	// translate Numeric character references &#x12d; or &#12;
-	{
-		string whatv;
-		rCE_.SubExpr(match, what, whatv, 0, 1);
-		istringstream istr(whatv);
-		int value;
-		if (whatv[0] == 'x')
+		const string::size_type amp(what.find('&', offset));
+		if (amp == string::npos)
+			break;
+		const string tail(what.substr(amp));
+		string whatv, oval;
+		if (rCX_.SearchString(match, tail, 2) == 2 && match.SubPos(0) == 0)	// predefined entity here
 		{
-			istr.ignore();
-			istr >> hex >> value;
+			rCX_.SubExpr(match, tail, whatv, 0, 1);
+			const auto sitr(stringtochar_.find(whatv));
+			oval += sitr == stringtochar_.cend() ? '?' : sitr->second; // not found character entity replaces string with '?'
+		}
+		else if (rCE_.SearchString(match, tail, 2) == 2 && match.SubPos(0) == 0)	// Numeric character reference &#x12d; or &#12; here
+		{
+			rCE_.SubExpr(match, tail, whatv, 0, 1);
+			istringstream istr(whatv);
+			int value;
+			if (whatv[0] == 'x')
+			{
+				istr.ignore();
+				istr >> hex >> value;
+			}
+			else
+				istr >> dec >> value;
+			if (value & 0xff00)	// handle hi byte
+				oval += static_cast<char>(value >> 8 & 0xff);
+			oval += static_cast<char>(value & 0xff);
 		}
 		else
-			istr >> dec >> value;
-		string oval;
-		if (value & 0xff00)	// handle hi byte
-			oval += static_cast<char>(value >> 8 & 0xff);
-		oval += static_cast<char>(value & 0xff);
-		rCE_.Replace(match, what, oval);
+		{
+			offset = amp + 1;	// a plain ampersand
+			continue;
+		}
+		what.replace(amp, match.SubSize(0), oval);
+		offset = amp + oval.size();
 	}
 
 	if (!(flags_ & noextensions))
